@@ -33,20 +33,26 @@ impl Run {
         Ok(cp)
     }
 
-    // Copy all current state into the file.
+    // Copy all current state into the file. The data is written to a temporary file that
+    // is then renamed over the real one, so the file always holds either the previous or
+    // the new state; truncating it in place would leave it empty (and every later `run`
+    // and `result show` failing) if the process died between the truncation and the write.
     pub(crate) fn save(&mut self) -> Result<(), MonorailError> {
+        let tmp_path = self.path.with_extension("json.tmp");
         let mut file = fs::OpenOptions::new()
             .write(true)
             .truncate(true)
             .create(true)
-            .open(&self.path)?;
+            .open(&tmp_path)?;
         #[cfg(pnordahl_monorail_verif)]
         crate::verif::point("ptr.truncated", "");
 
         let data = serde_json::to_vec(self)?;
         file.write_all(&data)?;
+        file.sync_all()?;
         #[cfg(pnordahl_monorail_verif)]
         crate::verif::point("ptr.written", "");
+        fs::rename(&tmp_path, &self.path)?;
         Ok(())
     }
 }
